@@ -670,10 +670,31 @@ void GridSequence::setAnisotropicRefinement(TypeDepth type, int min_growth, int 
     std::vector<int> weights;
     estimateAnisotropicCoefficients(type, output, weights);
 
+    // when the level limits bound every direction and all points of the limited box are already present, there is nothing more to add
+    auto saturated = [&]()->bool{
+        if (level_limits.empty()) return false;
+        size_t total = 1;
+        for(auto l : level_limits){
+            if (l < 0) return false;
+            total *= (size_t) (l + 1);
+        }
+        auto count_inside = [&](MultiIndexSet const &mset)->size_t{
+            size_t inside = 0;
+            for(int i=0; i<mset.getNumIndexes(); i++){
+                const int *t = mset.getIndex(i);
+                bool in_box = true;
+                for(int j=0; j<num_dimensions; j++) if (t[j] > level_limits[j]) in_box = false;
+                if (in_box) inside++;
+            }
+            return inside;
+        };
+        return (count_inside(points) + count_inside(needed) >= total);
+    };
+
     int level = 0;
     do{
         updateGrid(++level, type, weights, level_limits);
-    }while(getNumNeeded() < min_growth);
+    }while((getNumNeeded() < min_growth) && !saturated());
 }
 void GridSequence::setSurplusRefinement(double tolerance, int output, const std::vector<int> &level_limits){
     clearRefinement();
